@@ -158,7 +158,7 @@ def main():
         for (fn, grow, split, nk, lf, it) in deep:
             sel = sorted(set(split[:(60 if quick else 600)] + grow[:(30 if quick else 300)]))
             if flavour == 'asan':
-                sel = sel[::3]
+                sel = sorted(set(split[:(40 if quick else 400)] + sel[::3]))        # (the hard splits all, a third of the rest)
             for fam in (['II', 'OO'] if quick else ['II', 'OO', 'LF', 'fs', 'QQ']):
                 for is_set in (True, False):
                     plan.append(dict(fam=fam, is_set=is_set, leaf=lf, internal=it, nkeys=nk, dump=fn, indices=sel[(0 if is_set else 1)::2],
